@@ -1,10 +1,10 @@
 import AiocoapModel.Apps.Site
 /-
-Model of `Site.get_resources_as_linkheader` (resource.py:442-462) and of
-`WKCResource.render_get` (resource.py:248-304 of the fixed tree, with
-`_attribute_values`): the link list with hrefs built by string concatenation exactly as the
-code does, the optional impl-info link, and the evaluation of one RFC 6690 filter
-`k=v` / `k=v*`.
+Model of `Site.get_resources_as_linkheader` (resource.py:484-508 of the fixed tree) and of
+`WKCResource.render_get` (resource.py:267-329, with `_attribute_values`): the link list with
+hrefs built from the percent-encoded path components (`_quote_for_href`, resource.py:337)
+exactly as the code does, the optional impl-info link, and the evaluation of the RFC 6690
+filters `k=v` / `k=v*` — one filter function per query argument, applied one after the other.
 -/
 namespace Aiocoap.Apps
 
@@ -14,21 +14,46 @@ structure Link where
   attrs : List (Str × Option Str)
 deriving Repr, DecidableEq
 
+-- percent-encoding of path components ------------------------------------------------------
+
+/-- the characters `_quote_for_href` leaves alone: `unreserved + sub_delims + ":@"`
+(aiocoap/util/uri.py:10-13, resource.py:337) -/
+def hrefSafe (c : Nat) : Bool :=
+  (65 ≤ c && c ≤ 90) || (97 ≤ c && c ≤ 122) || (48 ≤ c && c ≤ 57) ||          -- letters, digits
+  c == 45 || c == 46 || c == 95 || c == 126 ||                                 -- - . _ ~
+  c == 33 || c == 36 || c == 38 || c == 39 || c == 40 || c == 41 ||            -- ! $ & ' ( )
+  c == 42 || c == 43 || c == 44 || c == 59 || c == 61 ||                       -- * + , ; =
+  c == 58 || c == 64                                                           -- : @
+
+/-- one digit of `"%02X"` -/
+def pctHex (n : Nat) : Nat := if n < 10 then 48 + n else 55 + n
+
+/-- `chr(x) if x in safe_set else "%%%02X" % x` (util/uri.py:26) -/
+def escByte (c : Nat) : Str := if hrefSafe c then [c] else [37, pctHex (c / 16), pctHex (c % 16)]
+
+/-- `quote(input_string)` over the UTF-8 bytes (util/uri.py:24-26) -/
+def escStr (s : Str) : Str := s.flatMap escByte
+
 /-- `"/".join(path)` -/
 def joinSlash : Path → Str
   | [] => []
   | [c] => c
   | c :: d :: rest => c ++ 47 :: joinSlash (d :: rest)
 
-/-- `Link("/" + "/".join(path), **details)` (resource.py:452); hidden resources
-(`details is None`) are skipped (resource.py:450-451) -/
+/-- `"".join("/" + _quote_for_href(p) for p in path)` (resource.py:503) -/
+def hrefSegs (p : Path) : Str := p.flatMap (fun c => 47 :: escStr c)
+
+/-- `Link("/" + "/".join(_quote_for_href(p) for p in path), **details)` (resource.py:494);
+hidden resources (`details is None`) are skipped (resource.py:492-493) -/
 def resLinks : List (Path × Res) → List Link
   | [] => []
   | (p, r) :: rest =>
-    if r.hidden then resLinks rest else ⟨47 :: joinSlash p, r.attrs⟩ :: resLinks rest
+    if r.hidden then resLinks rest
+    else ⟨47 :: joinSlash (p.map escStr), r.attrs⟩ :: resLinks rest
 
-/-- `Link("/" + "/".join(path) + link.href, link.attr_pairs)` (resource.py:459-461) -/
-def prefixLink (p : Path) (l : Link) : Link := ⟨47 :: (joinSlash p ++ l.href), l.attrs⟩
+/-- `Link("".join("/" + _quote_for_href(p) for p in path) + link.href, link.attr_pairs)`
+(resource.py:502-506) -/
+def prefixLink (p : Path) (l : Link) : Link := ⟨hrefSegs p ++ l.href, l.attrs⟩
 
 mutual
 /-- `get_resources_as_linkheader().links`: own resources in dict order, then the links of every
@@ -60,7 +85,7 @@ def splitEq : Str → Option (Str × Str)
 /-- `str.lower()` on ASCII -/
 def lowerAscii (s : Str) : Str := s.map (fun c => if 65 ≤ c ∧ c ≤ 90 then c + 32 else c)
 
-/-- `matchexp`: `x.startswith(v[:-1])` if `v.endswith("*")` else `x == v` (resource.py:264-271) -/
+/-- `matchexp`: `x.startswith(v[:-1])` if `v.endswith("*")` else `x == v` (resource.py:283-290) -/
 def matchExp (v x : Str) : Bool :=
   if v.getLast? = some 42 then v.dropLast.isPrefixOf x else x == v
 
@@ -74,25 +99,27 @@ def kIf : Str := [105, 102]
 def kCt : Str := [99, 116]
 def kHref : Str := [104, 114, 101, 102]
 
-/-- the three kinds of filter functions (resource.py:273-288) -/
+/-- the three kinds of filter functions (resource.py:295-313); each is bound to its own `k`
+and `matchexp` -/
 def linkMatches (k v : Str) (l : Link) : Bool :=
   if k = kRt ∨ k = kIf ∨ k = kCt then
     (attributeValues l k).any (fun value => (splitOn 32 value).any (matchExp v))
   else if k = kHref then matchExp v l.href
   else (attributeValues l k).any (matchExp v)
 
-/-- the impl-info link (resource.py:254-255): `Link(href=impl_info, rel="impl-info")` -/
+/-- the impl-info link (resource.py:273-274): `Link(href=impl_info, rel="impl-info")` -/
 def implInfoLink (uri : Str) : Link :=
   ⟨uri, [([114, 101, 108], some [105, 109, 112, 108, 45, 105, 110, 102, 111])]⟩
 
+/-- `while filters: links.links = filter(filters.pop(), links.links)` (resource.py:314-316):
+the filter of the last query argument is applied first, the one of the first argument last -/
+def applyFilters (fs : List (Str × Str)) (ls : List Link) : List Link :=
+  fs.foldr (fun kv acc => acc.filter (linkMatches kv.1 kv.2)) ls
+
 /-- `WKCResource.render_get` on the list the generator returned.  Query items without `=` are
-no filters; RFC 6690 defines one filter per query, several are outside the model (`none`). -/
-def wkcRender (links : List Link) (implInfo : Option Str) (queries : List Str) :
-    Option (List Link) :=
+no filters; every other item contributes one filter. -/
+def wkcRender (links : List Link) (implInfo : Option Str) (queries : List Str) : List Link :=
   let all := links ++ (match implInfo with | some u => [implInfoLink u] | none => [])
-  match queries.filterMap splitEq with
-  | [] => some all
-  | [(k, v)] => some (all.filter (linkMatches k v))
-  | _ => none
+  applyFilters (queries.filterMap splitEq) all
 
 end Aiocoap.Apps
